@@ -14,6 +14,7 @@ ASSUMPTIONS = [
     "a string accepted outside the documented grammar but read with its natural value (non-ASCII digits/blanks, trailing newline, s/second(s), 'iB' without scale) "
     "is information, not a violation",
     "alphabet: z3 characters 0..0x2FFFF; every code point above is checked to behave like U+2FFFF for each regex atom and to be fixed by upper()/lower()",
+    "time-zone independence of parse_date is established by probes of the real function under three TZ settings on solver-chosen dates, not by the arithmetic model",
     "calendar.timegm is an arithmetic model (proleptic Gregorian month table, no range check on day/hour/minute/second) validated against the real function on a grid",
     "float rounding of abbreviate_space's %.2f is outside the solver: only the shape of the printed string is used",
 ]
@@ -76,5 +77,8 @@ OBLIGATIONS = [
     pyob("date_fields", "date_fields", bounds={"quick": dict(BQ["quick"], year_max=9999), "thorough": dict(BQ["thorough"], year_max=9999)}, timeout=T,
          desc="parse_date/iso_utc_time_to_seconds: for all field values the regex admits (year 0..9999, other fields 00..99) the call raises ValueError or "
               "the fields are a real calendar date/time and the value is its UTC timestamp; a plain date is midnight UTC. "
-              "Field wiring of calendar.timegm / datetime.datetime read from the AST. Witness class: date-field-out-of-range"),
+              "Field wiring of calendar.timegm / datetime.datetime read from the AST. The real parse_date is also run on solver-chosen documented dates "
+              "(two per month, 1971..2037) under TZ=UTC, America/New_York and Asia/Kolkata: midnight UTC every time, and "
+              "parse_date(iso_utc_date(t)) == t - t % 86400. If parse_date's structure is not recognised the obligation falls back to these "
+              "probes plus malformed/impossible dates (VIOLATED or INCONCLUSIVE). Witness classes: date-field-out-of-range, date-depends-on-timezone"),
 ]
